@@ -4,5 +4,5 @@ CONSTANTS
   Durs = {0, 2}
 INIT Init
 NEXT Next
-INVARIANTS ReadMonotone SleepLower
+INVARIANTS ReadMonotone SleepLower DeadlineKept
 CHECK_DEADLOCK FALSE
